@@ -52,7 +52,7 @@ def content(i, refs, early, merged):
 
 
 def vfs_entry(url, kind, model):
-    text = '\n'.join(A.jump_text(model)) + '\n'
+    text = '\n'.join(A.jump_text(model)) + '\n' if model else ''       # an included file may be EMPTY (zero characters): that is a script
     if kind == 'broken':
         text = 'probe(99)\nx = (1 +\n'
     return {'url': url, 'kind': kind, 'model': model, 'text': text, 'cps': A.cps(text)}
@@ -130,8 +130,10 @@ def rand_tree(rnd):
             target = resolve(url, ref, system)
             if 'missing/' not in ref and target not in vfs and target != root:
                 vfs[target] = None
-                kind = rnd.choices(['text', 'missing', 'throws', 'broken'], [8, 1, 1, 1])[0]
+                kind = rnd.choices(['text', 'missing', 'throws', 'broken', 'empty'], [8, 1, 1, 1, 1])[0]
                 sub = make_file(target, depth + 1) if kind in ('text',) else []
+                if kind == 'empty':
+                    kind = 'text'
                 vfs[target] = (kind, sub)
             inc = inc_s([{'url': A.cps(ref), 'system': system}])
             r = rnd.random()
